@@ -298,6 +298,14 @@ def float_from_words(words, path):
     return float_from_number(number=result, words=words, path=path)
 
 
+def _int_bound_as_str(self, bound):
+    # a bound of an integer type need not be integral (value_min=0.5): "%d" would
+    # print it as 0 and the printed .type would accept values this one refuses
+    if bound != int(bound):
+        return repr(bound)
+    return "%d" % bound
+
+
 class _check_value_base:
     def _check_bound_types(self, value_min, value_max):
         # a bound that is not a number (.type = int(value_min=int), value_max="a"),
@@ -311,9 +319,12 @@ class _check_value_base:
                     "%s must be a number, not %s" % (name, type(bound).__name__)
                 )
             try:
-                self._value_as_str(value=bound)
+                self._bound_as_str(bound=bound)
             except (ValueError, OverflowError) as e:
                 raise TypeError("%s=%r: %s" % (name, bound, e))
+
+    def _bound_as_str(self, bound):
+        return self._value_as_str(value=bound)
 
     def _check_value(self, value, path_producer, words=None):
         def where_str():
@@ -328,7 +339,7 @@ class _check_value_base:
                 % (
                     path_producer(),
                     self._value_as_str(value=value),
-                    self._value_as_str(value=self.value_min),
+                    self._bound_as_str(bound=self.value_min),
                     where_str(),
                 )
             )
@@ -339,7 +350,7 @@ class _check_value_base:
                 % (
                     path_producer(),
                     self._value_as_str(value=value),
-                    self._value_as_str(value=self.value_max),
+                    self._bound_as_str(bound=self.value_max),
                     where_str(),
                 )
             )
@@ -364,9 +375,9 @@ class number_converters_base(_check_value_base):
     def __str__(self):
         kwds = []
         if self.value_min is not None:
-            kwds.append("value_min=" + self._value_as_str(value=self.value_min))
+            kwds.append("value_min=" + self._bound_as_str(bound=self.value_min))
         if self.value_max is not None:
-            kwds.append("value_max=" + self._value_as_str(value=self.value_max))
+            kwds.append("value_max=" + self._bound_as_str(bound=self.value_max))
         if self.allow_none:
             kwds.append("allow_none=True")
         else:
@@ -411,6 +422,8 @@ class int_converters(number_converters_base):
 
     def _value_as_str(self, value):
         return "%d" % value
+
+    _bound_as_str = _int_bound_as_str
 
 
 class float_converters(number_converters_base):
@@ -468,9 +481,9 @@ class numbers_converters_base(_check_value_base):
             if self.size_max is not None:
                 kwds.append("size_max=%d" % self.size_max)
         if self.value_min is not None:
-            kwds.append("value_min=" + self._value_as_str(value=self.value_min))
+            kwds.append("value_min=" + self._bound_as_str(bound=self.value_min))
         if self.value_max is not None:
-            kwds.append("value_max=" + self._value_as_str(value=self.value_max))
+            kwds.append("value_max=" + self._bound_as_str(bound=self.value_max))
         if self.allow_none_elements:
             kwds.append("allow_none_elements=True")
         if self.allow_auto_elements:
@@ -573,6 +586,8 @@ class ints_converters(numbers_converters_base):
 
     def _value_as_str(self, value):
         return "%d" % value
+
+    _bound_as_str = _int_bound_as_str
 
 
 class floats_converters(numbers_converters_base):
